@@ -39,6 +39,10 @@ def gen_plan(rng, tier, index):
     else:
         spec = gen.gen_rdms_spec(rng, n_rdm=(1, 8 if big else 6), n_cond=(3, 11 if big else 9), dtypes=True)
     n_ops = rng.randint(1, 8 if big else 6)
+    if rng.chance(0.12) and len(spec['cond_uids']) > 3:
+        # a user-supplied 'index' for the conditions (stimulus-set number ...): values repeat and are not positional
+        nc = len(spec['cond_uids'])
+        spec['pat_desc']['index'] = {'values': [i % max(1, nc // 2) for i in range(nc)], 'container': rng.pick(['list', 'array'])}
     ops = []
     for _ in range(n_ops):
         op = rng.wpick([('bootstrap_sample', 4), ('bootstrap_sample_rdm', 2), ('bootstrap_sample_pattern', 3),
